@@ -258,9 +258,14 @@ fn calculate_new_withdraw_rate(
         if slashed_amount.0.u128() != 0u128 {
             slashed_amount_of_batch += Uint256::one();
         }
-        actual_unbonded_amount_of_batch = Uint256::from(
-            SignedInt::from_subtraction(unbonded_amount_of_batch, slashed_amount_of_batch).0,
-        );
+        // A batch can not lose more than it unbonded: saturate at zero instead of dropping the sign.
+        let remaining_amount_of_batch =
+            SignedInt::from_subtraction(unbonded_amount_of_batch, slashed_amount_of_batch);
+        actual_unbonded_amount_of_batch = if remaining_amount_of_batch.1 {
+            Uint256::zero()
+        } else {
+            Uint256::from(remaining_amount_of_batch.0)
+        };
     }
 
     // Calculate the new withdraw rate
